@@ -388,3 +388,64 @@ def run(F, R, ctx):
     for n in sorted(resetters):
         R.inst("C04.e", "%s clears a mark bit (HeapAllocated::reset)" % lib.short_name(n), bool(allowed_r.search(n)),
                "%s clears mark bits outside the two whole-heap reset routines" % lib.short_name(n), F.fns[n].loc(), sample=True)
+    root_loop_rule(F, R)
+
+
+def root_loop_rule(F, R):
+    R.rule("C04.k", "no element of a root set is skipped: in the enumeration of other threads' roots (Synchronizer::enumerate_stacks "
+                    "and the functions of the repository it calls, two levels) and in every marker's visit_continuation, each loop over "
+                    "stack frames hands every frame on — every path from the iterator's Some edge back to the loop head reads what "
+                    "the frame's closure captured (ByteCodeLambda::captures, a helper of the repository that calls it on every path, or "
+                    "the field). A "
+                    "`continue` for frames that 'look the same' (ByteCodeLambda's PartialEq compares the lambda id and the "
+                    "arity, not the captures) leaves the captures of a distinct closure unmarked")
+    es = F.one(r"^steel::steel_vm::vm::\{impl Synchronizer\}::enumerate_stacks$")
+    fns = {es.name: es}
+    frontier = [es]
+    for _ in range(2):
+        nxt = []
+        for f in frontier:
+            for c in F.callees(f, expand_unresolved=False):
+                if c.startswith("steel::steel_vm::") and c in F.fns and c not in fns:
+                    fns[c] = F.fns[c]
+                    nxt.append(F.fns[c])
+        frontier = nxt
+    for n, f in F.fns.items():
+        if re.search(r"^steel::values::closed::\{impl BreadthFirstSearchSteelVal\w* for \w+(<'a>)?\}::visit_continuation$", n):
+            fns[n] = f
+        if re.search(r"^steel::values::closed::\{impl Heap\}::mark$", n):
+            fns[n] = f
+    n_loops = 0
+    for name, fn in sorted(fns.items()):
+        for i, b in fn.calls():
+            if not re.search(r"\{impl Iterator for \w+<[^}]*\}::next$|^core::iter::traits::iterator::Iterator::next$", b["callee"]):
+                continue
+            if not any(re.search(r"\bStackFrame\b|\bByteCodeLambda\b", t) for t in b.get("targs", [])):
+                continue
+            nxt = b.get("ret")
+            some = None
+            hops = 0
+            while nxt is not None and hops < 4:
+                nb = fn.blocks[nxt]
+                if nb["k"] == "switch" and nb["on"] == "enum:Option":
+                    some = lib.arm_map(fn, nxt).get("Some")
+                    break
+                if nb["k"] == "goto" and len(nb["s"]) == 1:
+                    nxt = nb["s"][0]
+                    hops += 1
+                    continue
+                break
+            if some is None:
+                continue
+            n_loops += 1
+            # looking at what the frame's closure captured: the accessor (or one of the repository's helpers that calls it on
+            # every path), or the field itself
+            work = set(fn.call_blocks(r"\{impl ByteCodeLambda\}::captures$", wrappers=True))
+            work |= set(j for j, _, e in fn.events("fld") if e[1] == "ByteCodeLambda" and e[2] == "captures")
+            ok, _ = fn.every_path_passes_from([some], [i], work)
+            R.inst("C04.k", "%s / the loop over stack frames (#%d) handles every frame" % (fn.short(), n_loops), ok,
+                   "%s: the loop over a thread's stack frames (line %s) can go on to the next frame without handing this one to "
+                   "the marker (its closure's captures are not read on that path): what the skipped frame's closure captured is "
+                   "not a root, so storage reachable only from a running frame is swept and handed out again"
+                   % (fn.short(), b.get("line")), fn.loc(b.get("line")), sample=True)
+    R.floor("C04.k", "loops over stack frames in root enumeration / continuation visitors", n_loops, 4)
